@@ -305,6 +305,12 @@ def lean_build(prop, repo_src):
         if r.returncode != 0:
             res['ok'] = False
             res['problems'].append('translator gen_tables.py: ' + r.stderr.strip())
+        # the context-free grammar of parse.y (bison's report), next to the tables: Gen/Grammar.lean
+        r = subprocess.run([sys.executable, os.path.join(ROOT, 'tools', 'gen_grammar.py'), repo_src,
+                            os.path.join(LEAN, 'Mdsort', 'Gen', 'Grammar.lean')], capture_output=True, text=True)
+        if r.returncode != 0:
+            res['ok'] = False
+            res['problems'].append('translator gen_grammar.py: ' + r.stderr.strip())
         r = subprocess.run(['lake', 'build', 'driver'], cwd=LEAN, capture_output=True, text=True)
         if r.returncode != 0:
             res['ok'] = False
@@ -384,6 +390,8 @@ def lean_setup():
     with LeanLock():
         subprocess.run([sys.executable, os.path.join(ROOT, 'tools', 'gen_tables.py'), REPO,
                         os.path.join(LEAN, 'Mdsort', 'Gen', 'Tables.lean')], check=True)
+        subprocess.run([sys.executable, os.path.join(ROOT, 'tools', 'gen_grammar.py'), REPO,
+                        os.path.join(LEAN, 'Mdsort', 'Gen', 'Grammar.lean')], check=True)
         r = subprocess.run(['lake', 'build', 'Mdsort', 'driver'], cwd=LEAN)
         return r.returncode
 
@@ -740,6 +748,8 @@ def lean_gate(rep, prop, scratch, what_trusted):
         'theorems': lb['axioms'],
     })
     rep.lean = lb
+    if lb['problems']:
+        rep.coverage['lean_problems'] = lb['problems'][:20]     # evidence also when a stage reports the failing input
     if lb.get('driver_failed'):
         raise CheckError('; '.join(lb['problems']))
     return lb
